@@ -10,11 +10,17 @@ Line-protocol driver for C09.  One case = one route table and one or more reques
            | 'r:'PAT('|'PAT)* attr* '(' route* ')'  web::resource(PAT | [PAT,…])…
            | 't:'PAT route                          App::route / Scope::route(PAT, route)
   attr    := 'g='GUARD | 'd='NAT | 'df='NAT         .guard(..) | .app_data(Marker(n)) | .default_service(h n)
-  route   := ('*' | GUARD('&'GUARD)*) '>' NAT       web::route().guard(..)….to(handler NAT)
+           | 'w='NAT                                .wrap(mw NAT): a middleware that reports the marker it sees
+                                                    through `ServiceRequest::app_data`
+           | 'z='NAT                                .wrap(slow NAT): a middleware whose factory future is Pending
+                                                    NAT times (start-up order only; no effect on the model)
+  route   := ('*' | GUARD('&'GUARD)*) '>' NAT ('!'NAT)?   web::route().guard(..)….to(handler NAT) [.wrap(slow NAT)]
   GUARD   := 'M~'method | 'H~'name'~'value | 'O~'host | 'A('GUARD(','GUARD)*')' | 'Y('…')' | 'N('GUARD')'
+           | 'D~'NAT                                fn_guard(|ctx| ctx.app_data::<Marker>() == Some(NAT))
   request := METHOD TARGET (name'='value)*          headers, e.g. host=ex1
 
-Output per request: `<who> mi=[k=v,…] un=<unprocessed> d=<marker|-> mp=<match_pattern|->`, where
+Output per request: `<who> mi=[k=v,…] un=<unprocessed> d=<marker|-> mp=<match_pattern|-> mw=[id:marker,…]`
+(`mw`: what the reporting middlewares on the chosen path saw, outermost first), where
 `who` is `h<n>` (handler), `df<n>` (a registered default service), `404`, `405`; requests are joined
 by ` | `.  The implementation side (`harness/src/props/c09.rs`) parses the same grammar.
 -/
@@ -26,6 +32,8 @@ open ActixModel.Util ActixModel.Route ActixModel.RouteMini
 structure DPat where
   alts : MiniPat
   text : String
+  /-- id of the reporting middleware wrapped around the node (`w=`), if any -/
+  wrap : Option Nat := none
 
 def dMatch : Matcher DPat := fun p isPrefix s => miniMatch p.alts isPrefix s
 
@@ -47,6 +55,9 @@ def parseGuardF : Nat → Chars → Option (Guard × Chars)
     | _ => none
   | _ + 1, 'M' :: '~' :: rest => let (m, r) := spanAtom rest; some (.method m, r)
   | _ + 1, 'O' :: '~' :: rest => let (h, r) := spanAtom rest; some (.host h, r)
+  | _ + 1, 'D' :: '~' :: rest =>
+    let (n, r) := spanAtom rest
+    n.toNat?.map fun n => (.data n, r)
   | _ + 1, 'H' :: '~' :: rest =>
     let (k, r) := spanAtom rest
     match r with
@@ -74,12 +85,12 @@ def parseRouteF : Nat → Chars → List Guard → Option Route
   | f + 1, s, acc =>
     match parseGuardF (s.length + 1) s with
     | some (g, '&' :: r) => parseRouteF f r (g :: acc)
-    | some (g, '>' :: r) => (String.ofList r).toNat?.map fun h => ⟨(g :: acc).reverse, h⟩
+    | some (g, '>' :: r) => (String.ofList (r.takeWhile (· != '!'))).toNat?.map fun h => ⟨(g :: acc).reverse, h⟩
     | _ => none
 
 def parseRoute (t : String) : Option Route :=
   match t.toList with
-  | '*' :: '>' :: r => (String.ofList r).toNat?.map fun h => ⟨[], h⟩
+  | '*' :: '>' :: r => (String.ofList (r.takeWhile (· != '!'))).toNat?.map fun h => ⟨[], h⟩
   | s => parseRouteF (s.length + 1) s []
 
 /-! ### table -/
@@ -88,6 +99,7 @@ structure Attrs where
   guards : List Guard := []
   data : Option Nat := none
   dflt : Option Nat := none
+  wrap : Option Nat := none
 
 def parseAttrs : List String → Attrs → Option (Attrs × List String)
   | [], a => some (a, [])
@@ -99,6 +111,14 @@ def parseAttrs : List String → Attrs → Option (Attrs × List String)
     else if t.startsWith "df=" then
       match (t.drop 3).toString.toNat? with
       | some n => parseAttrs rest { a with dflt := some n }
+      | none => none
+    else if t.startsWith "w=" then
+      match (t.drop 2).toString.toNat? with
+      | some n => parseAttrs rest { a with wrap := some n }
+      | none => none
+    else if t.startsWith "z=" then
+      match (t.drop 2).toString.toNat? with
+      | some _ => parseAttrs rest a
       | none => none
     else if t.startsWith "d=" then
       match (t.drop 2).toString.toNat? with
@@ -120,14 +140,14 @@ def splitOnChar (sep : Char) : Chars → Chars → List Chars → List Chars
     if c == sep then splitOnChar sep rest [] (cur.reverse :: acc) else splitOnChar sep rest (c :: cur) acc
 
 /-- a scope's pattern: `ResourceDef::root_prefix` -/
-def scopePat (raw : String) : DPat :=
+def scopePat (raw : String) (wrap : Option Nat := none) : DPat :=
   let p := ensureLeadingSlash raw.toList
-  { alts := [parsePattern p], text := String.ofList p }
+  { alts := [parsePattern p], text := String.ofList p, wrap := wrap }
 
 /-- a resource's pattern(s): `ResourceDef::new(ensure_leading_slash(..))` -/
-def resourcePat (raw : String) : DPat :=
+def resourcePat (raw : String) (wrap : Option Nat := none) : DPat :=
   let ps := (splitOnChar '|' raw.toList [] []).map ensureLeadingSlash
-  { alts := ps.map parsePattern, text := String.ofList (ps.headD []) }
+  { alts := ps.map parsePattern, text := String.ofList (ps.headD []), wrap := wrap }
 
 def parseNodes : Nat → List String → List (Node DPat) → Option (List (Node DPat) × List String)
   | 0, _, _ => none
@@ -139,7 +159,7 @@ def parseNodes : Nat → List String → List (Node DPat) → Option (List (Node
       | some (a, "{" :: rest2) =>
         match parseNodes f rest2 [] with
         | some (kids, rest3) =>
-          parseNodes f rest3 (.scope (scopePat (t.drop 2).toString) a.guards a.data kids a.dflt :: acc)
+          parseNodes f rest3 (.scope (scopePat (t.drop 2).toString a.wrap) a.guards a.data kids a.dflt :: acc)
         | none => none
       | _ => none
     else if t.startsWith "r:" then
@@ -147,7 +167,7 @@ def parseNodes : Nat → List String → List (Node DPat) → Option (List (Node
       | some (a, "(" :: rest2) =>
         match parseRoutes rest2 [] with
         | some (routes, rest3) =>
-          parseNodes f rest3 (.resource (resourcePat (t.drop 2).toString) a.guards a.data routes a.dflt :: acc)
+          parseNodes f rest3 (.resource (resourcePat (t.drop 2).toString a.wrap) a.guards a.data routes a.dflt :: acc)
         | none => none
       | _ => none
     else if t.startsWith "t:" then
@@ -167,7 +187,7 @@ def parseApp (toks : List String) : Option (App DPat) :=
     match parseAttrs rest {} with
     | some (a, "{" :: rest2) =>
       match parseNodes (rest2.length + 1) rest2 [] with
-      | some (kids, []) => if a.guards.isEmpty then some ⟨a.data, kids, a.dflt⟩ else none
+      | some (kids, []) => if a.guards.isEmpty && a.wrap.isNone then some ⟨a.data, kids, a.dflt⟩ else none
       | _ => none
     | _ => none
   | _ => none
@@ -207,6 +227,25 @@ def patternPath : List (Node DPat) → List Nat → String
     | some (.resource p ..) => p.text
     | none => "?"
 
+/-- what the reporting middlewares along the id path saw: each is wrapped *inside* the endpoint
+wrapper that pushes the node's data container (`scope.rs:442`, `resource.rs:504`), so it sees the
+node's own marker as innermost -/
+def mwPath : List (Node DPat) → List Nat → List Nat → List String
+  | _, [], _ => []
+  | nodes, i :: is, stack =>
+    match nodes[i]? with
+    | some n =>
+      let stack' := match n.data with
+        | some d => stack ++ [d]
+        | none => stack
+      let here := match n.pat.wrap with
+        | some w => [toString w ++ ":" ++ (match stack'.getLast? with | some m => toString m | none => "-")]
+        | none => []
+      here ++ (match n with
+        | .scope _ _ _ kids _ => mwPath kids is stack'
+        | .resource .. => [])
+    | none => []
+
 def showOutcome (app : App DPat) (req : Req) (o : Outcome) : String :=
   let mi := (matchInfo req o).map fun (k, v) => k ++ "=" ++ String.ofList v
   let d := match lookupData o with
@@ -216,7 +255,7 @@ def showOutcome (app : App DPat) (req : Req) (o : Outcome) : String :=
     | .handler _ => patternPath app.children o.st.ids
     | _ => "-"
   showTarget o.target ++ " mi=[" ++ joinWith "," mi ++ "] un=" ++ String.ofList (unprocessed req o.st) ++
-    " d=" ++ d ++ " mp=" ++ mp
+    " d=" ++ d ++ " mp=" ++ mp ++ " mw=[" ++ joinWith "," (mwPath app.children o.st.ids app.data.toList) ++ "]"
 
 def splitToks (sep : String) : List String → List String → List (List String) → List (List String)
   | [], cur, acc => (cur.reverse :: acc).reverse
